@@ -32,10 +32,10 @@ def getCommonType (ty1 ty2 : CTy) : CTy :=
 
 def nodeTy : CNode → CTy
   | .null => tyInt
-  | .mk _ ty _ _ _ _ _ _ => ty
+  | .mk _ ty _ _ _ _ _ _ _ => ty
 
-def un (k : NodeKind) (ty : CTy) (a : CNode) : CNode := .mk k ty 0 a .null .null .null .null
-def bin (k : NodeKind) (ty : CTy) (a b : CNode) : CNode := .mk k ty 0 a b .null .null .null
+def un (k : NodeKind) (ty : CTy) (a : CNode) : CNode := .mk k ty 0 0 a .null .null .null .null
+def bin (k : NodeKind) (ty : CTy) (a b : CNode) : CNode := .mk k ty 0 0 a b .null .null .null
 /-- `new_cast(expr, ty)` -/
 def mkCast (a : CNode) (ty : CTy) : CNode := un .ND_CAST ty a
 
@@ -50,10 +50,10 @@ def mkCompare (k : NodeKind) (a b : CNode) : CNode :=
 /-- `ND_NEG`, `ND_BITNOT`, `ND_SHL`, `ND_SHR`: the (left) operand is promoted, the result has the promoted type -/
 def mkPromoted (k : NodeKind) (a b : CNode) : CNode :=
   let t := getCommonType tyInt (nodeTy a)
-  .mk k t 0 (mkCast a t) b .null .null .null
+  .mk k t 0 0 (mkCast a t) b .null .null .null
 
 def elabE : CExpr → CNode
-  | .lit t v => .mk .ND_NUM (descr t) (BitVec.ofInt 64 v) .null .null .null .null .null
+  | .lit t v => .mk .ND_NUM (descr t) (BitVec.ofInt 64 v) 0 .null .null .null .null .null
   | .un .neg e => mkPromoted .ND_NEG (elabE e) .null
   | .un .bitnot e => mkPromoted .ND_BITNOT (elabE e) .null
   | .un .lognot e => un .ND_NOT tyInt (elabE e)
@@ -86,13 +86,10 @@ def elabE : CExpr → CNode
     let x := elabE a
     let y := elabE b
     let t := getCommonType (nodeTy x) (nodeTy y)
-    .mk .ND_COND t 0 .null .null (elabE c) (mkCast x t) (mkCast y t)
+    .mk .ND_COND t 0 0 .null .null (elabE c) (mkCast x t) (mkCast y t)
   | .cast t e => mkCast (elabE e) (descr t)
 
-/-- floating evaluation is outside the integer model -/
-def noFp : FpEnv :=
-  { toI64 := fun _ => .error (.unmodelled "floating operand"),
-    neZero := fun _ => .error (.unmodelled "floating operand"),
-    cmp := fun _ _ _ => .error (.unmodelled "floating operand") }
+/-- a host without floating arithmetic (integer constant expressions never consult it) -/
+def noFp : FpEnv := ChibiVerif.Host.HostFp.none
 
 end ChibiVerif.ConstElab
